@@ -6,6 +6,7 @@ import (
 
 	"annverif/core"
 	"annverif/equiv"
+	"annverif/rules"
 )
 
 var extraCmds = map[string]func([]string) int{}
@@ -29,6 +30,20 @@ func init() {
 		fmt.Println("TREE:", tree)
 		fmt.Println("REF :", ref)
 		fmt.Println(err)
+		return 0
+	}
+}
+
+func init() {
+	extraCmds["roots"] = func(args []string) int {
+		p, err := core.Load(core.LoadOpts{Repo: "/repo", NeedCG: true})
+		if err != nil {
+			fmt.Println(err)
+			return 2
+		}
+		rep := core.NewReport("C08", "quick")
+		c := rules.NewCtx(p, rep, "quick")
+		fmt.Println(c.DebugRoots(args))
 		return 0
 	}
 }
